@@ -26,7 +26,7 @@ def budget(tier):
 
 @st.composite
 def _case(draw):
-    prof = S.profile(dep_only_file=0.2, max_methods=4, max_services=2, p_http=0.65, p_sig=0.15, p_routing=0.05, p_paged=0.05, p_lro=0.7, p_stream=0.05,
+    prof = S.profile(dep_only_file=0.2, services_in_subpackages=True, max_methods=4, max_services=2, p_http=0.65, p_sig=0.15, p_routing=0.05, p_paged=0.05, p_lro=0.7, p_stream=0.05,
                      p_dep_io=0.05, p_comment=0.03, max_messages=5, max_fields=4, max_files=3, p_subpackage=0.35, lro_variants=True, p_colliding_file_name=0.35,
                      p_resource=0.1)
     api = draw(S.apis(prof))
